@@ -212,7 +212,9 @@ def rule_cfg_inventory(repo, tier, R):
         elif "wrapping_version" in pred:
             succ = re.search(r"\b(wrapping_add|checked_add) \( 1 \)", gated) is not None
             bad = re.search(r"\bself \. (len|capacity|free_head|slots|entities|created|destroyed|d\d+)\b|\b(push|swap_remove|write|release|assign|grow) \(", gated)
-            R.check(succ and not bad, "C19-R2", key, "wrapping_version gate = one of the two ways to compute the successor generation (x+1 wrapping / checked)", "wrapping_version gates `%s` in %s: more (or other) than the successor computation" % (gated[:100], c["fn"]), where)
+            # what the two alternatives compute is judged per configuration on MIR (C08-R2, C19-R5); lexically the gate
+            # must not reach beyond an expression: no store to a storage field, no mutating call
+            R.check(not bad, "C19-R2", key, "wrapping_version gate holds an expression only (no field store, no mutating call)%s" % (" -- the successor computation" if succ else ""), "wrapping_version gates `%s` in %s: a state change under the gate" % (gated[:100], c["fn"]), where)
         elif pred == 'feature = "32_components"':
             m = re.match(r"seq ! \( N in 17 \.\s*\. = 32 \{ (.*) \} \)$", gated.strip())
             ok = m is not None
